@@ -191,6 +191,11 @@ def coq_eval(name, text, timeout=900):
         fh.write(text)
     rc, out, secs = sh(["timeout", str(timeout), "coqc", "-Q", os.path.join(COQ, "theories"), "Shm", p],
                        cwd=d, timeout=timeout + 30)
+    if rc != 0 and "inconsistent assumptions" in out:
+        # a dependency was recompiled underneath a compiled evaluator: rebuild and try once more
+        coq_build()
+        rc, out, secs = sh(["timeout", str(timeout), "coqc", "-Q", os.path.join(COQ, "theories"), "Shm", p],
+                           cwd=d, timeout=timeout + 30)
     for ext in (".vo", ".vok", ".vos", ".glob"):
         try:
             os.unlink(os.path.join(d, name + ext))
@@ -256,7 +261,11 @@ def proof_step(prop, tier):
             for f in glob.glob(os.path.join(WORK, "clean_build_*")):
                 os.unlink(f)
             r["clean_rebuild"] = True
-    ok, log, _ = coq_build(clean=thorough_full, target=None if (thorough_full or tier == "thorough") else "theories/Props/%s.vo" % prop)
+    # quick: the cone of this property's theorems plus the correspondence evaluators (they depend on Gen/Consts.v
+    # too and must never be stale when the generated constants change)
+    corr_targets = " ".join(os.path.relpath(f, COQ) + "o" for f in coq_sources() if "/Corr/" in f)
+    ok, log, _ = coq_build(clean=thorough_full, target=None if (thorough_full or tier == "thorough")
+                           else "theories/Props/%s.vo %s" % (prop, corr_targets))
     if r.get("clean_rebuild") and ok:
         open(marker, "w").write(time.strftime("%F %T"))
     thms = props_theorems(prop)
